@@ -976,3 +976,7 @@ def run(ctx):
     # the stream this property talks about is all-or-nothing: generate_dump succeeds only if its writer returned Ok (rules/c01.py rule_hard_streams)
     from rules import c01 as _c01h
     _c01h.rule_hard_streams(ctx, R="C04/hard-streams", only=('thread_list_stream::write',))
+    # `never ... given another thread's state`: the supplied crash context is written for the thread whose TID is the blamed one — decided
+    # by comparing tids per entry, not by a position computed on an earlier version of the list (same rule instance as C05/branch-select)
+    from rules import c05 as _c05b
+    _c05b.rule_branch_select(ctx, R="C04/crash-context-for-blamed-tid")
